@@ -147,6 +147,19 @@ func (c *Ctx) verifyBody() {
 	for _, rq := range sp.Requires {
 		st.assume(c.evalBool(env, rq.Expr))
 	}
+	for _, a := range sp.Assumes {
+		c.Assumed["contract clause of "+fnDisplay(fn)+" NOT verified on its body (callers assume it): "+a.Src] = true
+	}
+	if u := sp.Opts["under"]; u != "" {
+		// `opt under <cond>`: the body is verified only for calls that satisfy cond (every ensures clause is expected to
+		// carry cond as its antecedent); paths of other calls - their safety and their frame - are NOT checked
+		ue, err := ParseSpecExpr(u)
+		if err != nil {
+			panic(VerErr{"SPEC-ERROR: opt under: " + err.Error()})
+		}
+		st.assume(c.evalBool(env, ue))
+		c.Assumed["verified only for calls satisfying `"+u+"` (opt under): the other calls' paths, safety and frame are not checked"] = true
+	}
 	// vacuity guard: the precondition must be satisfiable
 	c.Obs = append(c.Obs, &Obligation{Name: fnDisplay(fn) + "/vacuity:requires-satisfiable", Kind: "canary", Fn: fnDisplay(fn),
 		PC: append([]*Term(nil), st.PC...), Claim: False(), Canary: true})
